@@ -450,6 +450,7 @@ func main() {
 			}
 		}
 	}
+	faultCases := storeFaults(seed)
 	e.trace.Close()
-	out.Encode(V{"kind": "summary", "cases": e.trace.N, "findings": findings})
+	out.Encode(V{"kind": "summary", "cases": e.trace.N, "store_fault_cases": faultCases, "findings": findings})
 }
